@@ -482,7 +482,8 @@ fn walk(bytes: &[u8]) -> String {
     });
     simple!("CP", MinidumpCrashpadInfo, |v| {
         v.print(&mut out).unwrap();
-        format!("ok:{}:{}", v.simple_annotations.len(), v.module_list.len())
+        let inner: usize = v.module_list.iter().map(|m| m.list_annotations.len() + m.simple_annotations.len() + m.annotation_objects.len()).sum();
+        format!("ok:{}:{}:{}", v.simple_annotations.len(), v.module_list.len(), inner)
     });
     simple!("AS", MinidumpAssertion, |v| {
         v.print(&mut out).unwrap();
@@ -550,7 +551,7 @@ fn sizes() -> String {
     use std::mem::size_of as s;
     format!(
         "SIZES thread_raw={} module_raw={} memdesc_raw={} memdesc64_raw={} meminfo_raw={} threadinfo_raw={} unloaded_raw={} threadname_raw={} \
-         thread={} module={} memory={} memory64={} threadinfo={} unloaded={} handle={}",
+         thread={} module={} memory={} memory64={} threadinfo={} unloaded={} handle={} string={} module_crashpad={}",
         s::<md::MINIDUMP_THREAD>(),
         s::<md::MINIDUMP_MODULE>(),
         s::<md::MINIDUMP_MEMORY_DESCRIPTOR>(),
@@ -566,6 +567,8 @@ fn sizes() -> String {
         s::<MinidumpThreadInfo>(),
         s::<MinidumpUnloadedModule>(),
         s::<MinidumpHandleDescriptor>(),
+        s::<String>(),
+        s::<MinidumpModuleCrashpadInfo>(),
     )
 }
 
